@@ -60,3 +60,30 @@ Definition ires_code (r : ires) : Z :=
   | CrashValueError => (-2)%Z
   | BadRule => (-3)%Z
   end.
+
+(** * glue for the correspondence run: one case = one rule, an alphabet, words given as
+      index lists into the alphabet, candidate names; every (word, candidate) pair is
+      evaluated inside Coq *)
+Record icase := {
+  ic_rule : rule_raw;
+  ic_alpha : list pystr;
+  ic_words : list (list nat);
+  ic_cands : list nat
+}.
+
+Definition iout := (list Z * list (option bool))%type.
+
+Definition run_icase (c : icase) : iout :=
+  let nm := fun i => nth i (ic_alpha c) [] in
+  (flat_map (fun w => map (fun x => ires_code (rule_insert_index (ic_rule c) (map nm w) (nm x))) (ic_cands c))
+            (ic_words c),
+   map (fun x => rule_allowed_child (ic_rule c) (nm x)) (ic_cands c)).
+
+Definition iout_eqb (a b : iout) : bool :=
+  list_eqb Z.eqb (fst a) (fst b) && list_eqb (opt_eqb Bool.eqb) (snd a) (snd b).
+
+Definition no_rule : rule_raw :=
+  {| rr_attrs := []; rr_children := [RInt 0]; rr_content_rules := []; rr_content_enum := None |}.
+
+Definition rule_named (rules : list (pystr * rule_raw)) (rn : pystr) : rule_raw :=
+  match assoc rn rules with Some r => r | None => no_rule end.
